@@ -364,7 +364,7 @@ class SetWithKnownFields(Validator):
         if (
             element.raw is Unset
             or element.raw is None  # perverse case
-            or hasattr(element.raw, "next")
+            or hasattr(element.raw, "__next__")
         ):
             return True
 
@@ -460,7 +460,7 @@ class SetWithAllFields(Validator):
         if (
             element.raw is Unset
             or element.raw is None  # perverse case
-            or hasattr(element.raw, "next")
+            or hasattr(element.raw, "__next__")
         ):
             return True
 
